@@ -36,6 +36,24 @@ META = {
         level_text="Per-frame comparison of the real mixer against an independent model over ~4x10^4 (quick) / 10^6 (thorough) random track/send/sound histories; exploration.",
         level_note="Trusts the harness model of the documented signal flow and the probe implementations of the public Sound/Effect traits.",
     ),
+    "C03": dict(
+        level="exploration",
+        technique="runtime monitoring: online trace-specification monitor of handle.state()/position()/track.num_sounds() and the gain of a DC sound after every callback, for command sequences enumerated exhaustively to a depth bound and generated randomly beyond",
+        design_ref="DESIGN.md §3 C03",
+        rule=("A DC sound (static; 8 % of random cases streaming) on a capacity-1 sub-track, one internal buffer per callback. Exhaustive part: every command sequence up to depth 3 (quick) / 4 (thorough) over the alphabet {pause, resume, stop, resume_at(delayed), resume_at(clock)} x fade {0, 0.5, 1, 2.5 chunks} + "
+              "{resume_at(delayed 0), resume_at(clock that no longer exists), seek_to, seek_by, set_volume, set_playback_rate} x issue gap {0,1,3 callbacks}, every 5th on a finite sound. Random part: up to 40 commands with random fades/delays, fade-in, delayed start, finite sounds, streaming sounds. "
+              "Monitor rules per callback: the reported state must be in the set the documented life cycle allows (fade-driven steps complete when their tween completes +-1 callback; clock-scheduled resumes leave WaitingToResume exactly in the buffer in which the observed clock reaches the time; a missing clock cancels to Stopped; Stopped absorbs); "
+              "exact silence and frozen position across callbacks spent entirely in Paused/WaitingToResume/Stopped; exactly unity gain when steadily Playing, monotone gain inside fades, gain within [0, unity]; Stopped sounds unloaded at the next callback (num_sounds) and the slot reusable; finite sounds reach Stopped within a frame bound. "
+              "A case is distinct and non-trivial when its observed state trace is new and contains a transition."),
+        exhaustive_quick=True,
+        exhaustive_thorough=True,
+        domain="at most one state command per callback interval (cross-kind ordering inside one interval is C07's subject); fades 0..6 chunks, delays 0..5 chunks",
+        assumptions=["exhaustive:true refers to the enumeration of all command sequences up to the stated depth over the stated alphabet", "the most recent command wins until Stopped (kira lets pause/resume override a running Stopping); only Stopped is required to be final"],
+        quick=[rel(30)],
+        thorough=[rel(1500)],
+        level_text="Online trace monitor over every command sequence up to a depth bound plus ~10^5..10^6 random deep sequences on the real sounds through the real mixer; exploration beyond the bound.",
+        level_note="Trusts the harness life-cycle automaton (written from the documentation) and the observation that one callback == one internal chunk in this rig.",
+    ),
     "C04": dict(
         level="exploration",
         technique="runtime monitoring: index-coded source frames with poison outside the slice, real Box<dyn Sound> from StaticSoundData::into_sound driven with MockInfoBuilder; independent transport + Hermite oracle; local successor/seek-landing trace monitor for commands",
